@@ -210,6 +210,7 @@ func TestC20(t *testing.T) {
 	concurrentRefresh(t, r)
 	concurrentRefreshEncrypt(t, r)
 	rotationRepeat(t, r)
+	rotationInPlace(t, r)
 	r.Finish(t)
 }
 
@@ -274,6 +275,81 @@ func rotationRepeat(t *testing.T, r *ev.Run) {
 					}
 				}
 				s.Close()
+				f.Close()
+				synctest.Wait()
+				r.Eval(1)
+				r.Distinct(name)
+			})
+		}()
+	}
+}
+
+// rotationInPlace: the factory under test has cached both keys as "latest" when they expire; its next encrypt
+// rotates them in place. Repeats inside the interval must then stay call-free, and further partitions of the same
+// factory must find the new system key in the cache: one KMS unwrap per system key per interval, however many
+// partitions follow.
+func rotationInPlace(t *testing.T, r *ev.Run) {
+	for _, nc := range []namedCfg{{"simple", world.Default(0, 0, 0)}, {"lru100", func() world.Cfg {
+		c := world.Default(0, 0, 0)
+		c.IKPolicy, c.IKCap, c.SKPolicy, c.SKCap = "lru", 100, "slru", 100
+		return c
+	}()}, {"shared-lfu64", func() world.Cfg {
+		c := world.Default(0, 0, 0)
+		c.SharedIK, c.IKPolicy, c.IKCap = true, "lfu", 64
+		return c
+	}()}, {"session-cache", func() world.Cfg {
+		c := world.Default(0, 0, 0)
+		c.SessCache, c.SessCap, c.SessDur = true, 100, 10000 * time.Hour
+		return c
+	}()}} {
+		name := "rotation-in-place/" + nc.name
+		journal("c20 " + name)
+		func() {
+			defer func() {
+				if pv := recover(); pv != nil {
+					r.Violation("c20-panic", fmt.Sprintf("scenario %s: %v", name, pv), name)
+				}
+			}()
+			synctest.Test(t, func(t *testing.T) {
+				E, R := time.Hour, 10*time.Minute
+				cfg := nc.cfg
+				cfg.Expire, cfg.Revoke, cfg.Precision = E, R, time.Minute
+				c := &c20{r: r, name: name, cfg: cfg, R: R, lastRead: map[string]time.Time{}, done: map[string]bool{}, kmsSeen: map[[32]byte]time.Time{}}
+				c.w = world.New("memguard")
+				c.w.MS.WhoFn = func() string { return c.scope }
+				defer c.w.Close()
+				time.Sleep(27 * time.Second)
+				f := c.w.Factory(cfg, "svc", "prod")
+				mk := func(part string) *c20sess {
+					s, _ := f.GetSession(part)
+					cs := &c20sess{part: part, s: s, scope: "session:" + part}
+					if cfg.SharedIK {
+						cs.scope = "factory"
+					}
+					return cs
+				}
+				cs := mk("part0")
+				ikid := "_IK_part0_svc_prod"
+				c.op(cs, nil, "", []byte("x"), ikid) // first generation, cached as latest
+				// keep the cached keys fresh right up to their expiry, then let them expire while cached
+				time.Sleep(E - 2*time.Minute)
+				c.op(cs, nil, "", []byte("x"), ikid)
+				time.Sleep(4 * time.Minute) // both keys are expired now, their cache entries are still fresh
+				c.done = map[string]bool{}  // what follows is a new generation: nothing is a repeat yet
+				c.op(cs, nil, "", []byte("x"), ikid) // rotates in place
+				c.op(cs, nil, "", []byte("x"), ikid) // repeat: no external call
+				var others []*c20sess
+				for i := 1; i <= 4 && !c.failed; i++ {
+					o := mk(fmt.Sprintf("part%d", i))
+					others = append(others, o)
+					c.op(o, nil, "", []byte("y"), fmt.Sprintf("_IK_part%d_svc_prod", i)) // new partition: the new SK must come from the cache
+					time.Sleep(R / 16)
+					c.op(cs, nil, "", []byte("x"), ikid)
+				}
+				for _, o := range others {
+					o.s.Close()
+				}
+				cs.s.Close()
 				f.Close()
 				synctest.Wait()
 				r.Eval(1)
